@@ -1,6 +1,683 @@
-//! parse ops. Stub until the layer is built. Mirror of coq/Extract/Ops*.v
+//! parse / resolve / totality ops (C07, C12, C14). Mirror of coq/Extract/OpsParse.v
+//!
+//! 3301  input  = code points of ONE module text
+//!       output = 0 <model>                                   resolved `Model<Asn<Resolved>>` (Model::try_resolve)
+//!              | 1 1 kind <tok>                              parse error      (stage 1)
+//!              | 1 2 kind <str>                              resolve error    (stage 2)
+//!              | 2 stage class                               panic in stage 0 (tokenizer) / 1 / 2
+//!              | -2                                          input is not a sequence of Unicode scalar values
+//! 3302  input  = k (len code*len)*k                          k module texts in load order (converter.rs:
+//!                                                            Tokenizer -> Model::try_from -> MultiModuleResolver::push,
+//!                                                            then try_resolve_all)
+//!       output = 0 k <model>*k | 1 1 idx kind <tok> | 1 2 kind <str> | 2 stage class | -2
+//! 3303  input  = flags code*                                 flags bit0: also to_protobuf (needs the `protobuf` build)
+//!                                                                  bit1: also run the code generators (information only)
+//!       output = (stage outcome)*  until the first stage that does not succeed
+//!                  stage 0 tokenizer, 1 parser, 2 resolver, 3 to_rust, 4 to_protobuf, 5 RustCodeGenerator, 6 ProtobufDefGenerator
+//!                  outcome 0 | 1 kind hastok line column len | 2 class file line msg | -1 (stage not compiled in)
+//!                (stages 4, 5, 6 all start from the result of stage 3, so a failure in one does not hide the others)
+//!
+//! 3304  input  = n1 <3302 input of n1 ints> <3302 input>      two module sets (C12: referencing variant, literal variant)
+//!       output = len(answer 1) <answer 1> <answer 2>          the two 3302 answers
+//! 3311/3312/3313/3314  input = k <k opaque ints> <input of 3301/3302/3303/3304>; the prefix is the check's own description of
+//!       the case (checks/C07.py, C12.py, C14.py decode it in their oracles); output as 3301/3302/3303
+//!
+//! <model> = <str name> <oid?> nimports (nwhat <str>*nwhat <str from> <oid?>)* ndefs (<str name> <asn>)* nvalrefs (<str name> <asn> <lit>)*
+//! <str>   = len code*len
+//! <oid?>  = 0 | 1 n comp*n        comp = 0 <str> | 1 number | 2 <str> number
+//! <asn>   = <tag> <type> <default?>      <tag> = -1 | class number  (0 UNIVERSAL 1 APPLICATION 2 context 3 PRIVATE)
+//! <default?> = 0 | 1 <lit>        <lit> = 0 bool | 1 <str> | 2 int | 3 n byte*n | 4 <str type> <str variant>
+//! <type>  = 0 BOOLEAN | 1 <range> <consts> INTEGER | 2 <size> charset (0 utf8 1 numeric 2 printable 3 ia5 4 visible)
+//!         | 3 <size> OCTET STRING | 4 <size> <consts> BIT STRING | 5 NULL | 6 <type> Optional | 7 <type> <lit> Default
+//!         | 8 <fields> SEQUENCE | 9 <type> <size> SEQUENCE OF | 10 <fields> SET | 11 <type> <size> SET OF
+//!         | 12 n (<str> number|-1)*n extension_after|-1  ENUMERATED
+//!         | 13 n (<str> <tag> <type>)*n extension_after|-1  CHOICE
+//!         | 14 <str> <tag> TypeReference
+//! <range> = (0 | 1 min) (0 | 1 max) extensible      <consts> = n (<str> value)*n
+//! <size>  = 0 | 1 n ext | 2 min max ext
+//! <fields>= n (<str name> <asn>)*n extension_after|-1
+//! <tok>   = -1 | 0 line column <str> (text) | 1 line column 1 c (separator)
 use crate::I;
+use asn1rs_model::asn::{
+    Asn, Charset, ComponentTypeList, MultiModuleResolver, ObjectIdentifier, ObjectIdentifierComponent, Size, Tag, Type,
+};
+use asn1rs_model::parse::{Token, Tokenizer};
+use asn1rs_model::resolve::Resolved;
+use asn1rs_model::{LiteralValue, Model};
 
-pub fn run(_op: I, _a: &[I]) -> Vec<I> {
-    vec![-1]
+fn text_of(a: &[I]) -> Option<String> {
+    let mut s = String::with_capacity(a.len());
+    for v in a {
+        if *v < 0 || *v > 0x10FFFF {
+            return None;
+        }
+        s.push(char::from_u32(*v as u32)?);
+    }
+    Some(s)
+}
+
+// ------------------------------------------------------------------ dump
+
+fn d_str(o: &mut Vec<I>, s: &str) {
+    o.push(s.chars().count() as I);
+    o.extend(s.chars().map(|c| c as u32 as I));
+}
+
+fn d_oid(o: &mut Vec<I>, oid: &Option<ObjectIdentifier>) {
+    match oid {
+        None => o.push(0),
+        Some(oid) => {
+            o.push(1);
+            o.push(oid.iter().count() as I);
+            for c in oid.iter() {
+                match c {
+                    ObjectIdentifierComponent::NameForm(n) => {
+                        o.push(0);
+                        d_str(o, n);
+                    }
+                    ObjectIdentifierComponent::NumberForm(v) => {
+                        o.push(1);
+                        o.push(*v as I);
+                    }
+                    ObjectIdentifierComponent::NameAndNumberForm(n, v) => {
+                        o.push(2);
+                        d_str(o, n);
+                        o.push(*v as I);
+                    }
+                }
+            }
+        }
+    }
+}
+
+fn d_tag(o: &mut Vec<I>, t: &Option<Tag>) {
+    match t {
+        None => o.push(-1),
+        Some(Tag::Universal(n)) => o.extend([0, *n as I]),
+        Some(Tag::Application(n)) => o.extend([1, *n as I]),
+        Some(Tag::ContextSpecific(n)) => o.extend([2, *n as I]),
+        Some(Tag::Private(n)) => o.extend([3, *n as I]),
+    }
+}
+
+fn d_lit(o: &mut Vec<I>, l: &LiteralValue) {
+    match l {
+        LiteralValue::Boolean(b) => o.extend([0, *b as I]),
+        LiteralValue::String(s) => {
+            o.push(1);
+            d_str(o, s);
+        }
+        LiteralValue::Integer(v) => o.extend([2, *v as I]),
+        LiteralValue::OctetString(v) => {
+            o.push(3);
+            o.push(v.len() as I);
+            o.extend(v.iter().map(|b| *b as I));
+        }
+        LiteralValue::EnumeratedVariant(t, v) => {
+            o.push(4);
+            d_str(o, t);
+            d_str(o, v);
+        }
+    }
+}
+
+fn d_size(o: &mut Vec<I>, s: &Size<usize>) {
+    match s {
+        Size::Any => o.push(0),
+        Size::Fix(n, e) => o.extend([1, *n as I, *e as I]),
+        Size::Range(a, b, e) => o.extend([2, *a as I, *b as I, *e as I]),
+    }
+}
+
+fn d_fields(o: &mut Vec<I>, l: &ComponentTypeList<Resolved>) {
+    o.push(l.fields.len() as I);
+    for f in &l.fields {
+        d_str(o, &f.name);
+        d_asn(o, &f.role);
+    }
+    o.push(l.extension_after.map_or(-1, |v| v as I));
+}
+
+fn d_type(o: &mut Vec<I>, t: &Type<Resolved>) {
+    match t {
+        Type::Boolean => o.push(0),
+        Type::Integer(i) => {
+            o.push(1);
+            match i.range.min() {
+                None => o.push(0),
+                Some(v) => o.extend([1, *v as I]),
+            }
+            match i.range.max() {
+                None => o.push(0),
+                Some(v) => o.extend([1, *v as I]),
+            }
+            o.push(i.range.extensible() as I);
+            o.push(i.constants.len() as I);
+            for (n, v) in &i.constants {
+                d_str(o, n);
+                o.push(*v as I);
+            }
+        }
+        Type::String(s, c) => {
+            o.push(2);
+            d_size(o, s);
+            o.push(match c {
+                Charset::Utf8 => 0,
+                Charset::Numeric => 1,
+                Charset::Printable => 2,
+                Charset::Ia5 => 3,
+                Charset::Visible => 4,
+            });
+        }
+        Type::OctetString(s) => {
+            o.push(3);
+            d_size(o, s);
+        }
+        Type::BitString(b) => {
+            o.push(4);
+            d_size(o, &b.size);
+            o.push(b.constants.len() as I);
+            for (n, v) in &b.constants {
+                d_str(o, n);
+                o.push(*v as I);
+            }
+        }
+        Type::Null => o.push(5),
+        Type::Optional(i) => {
+            o.push(6);
+            d_type(o, i);
+        }
+        Type::Default(i, l) => {
+            o.push(7);
+            d_type(o, i);
+            d_lit(o, l);
+        }
+        Type::Sequence(l) => {
+            o.push(8);
+            d_fields(o, l);
+        }
+        Type::SequenceOf(i, s) => {
+            o.push(9);
+            d_type(o, i);
+            d_size(o, s);
+        }
+        Type::Set(l) => {
+            o.push(10);
+            d_fields(o, l);
+        }
+        Type::SetOf(i, s) => {
+            o.push(11);
+            d_type(o, i);
+            d_size(o, s);
+        }
+        Type::Enumerated(e) => {
+            o.push(12);
+            o.push(e.len() as I);
+            for v in e.variants() {
+                d_str(o, v.name());
+                o.push(v.number().map_or(-1, |n| n as I));
+            }
+            o.push(e.extension_after_index().map_or(-1, |v| v as I));
+        }
+        Type::Choice(c) => {
+            o.push(13);
+            o.push(c.len() as I);
+            for v in c.variants() {
+                d_str(o, &v.name);
+                d_tag(o, &v.tag);
+                d_type(o, &v.r#type);
+            }
+            o.push(c.extension_after_index().map_or(-1, |v| v as I));
+        }
+        Type::TypeReference(n, t) => {
+            o.push(14);
+            d_str(o, n);
+            d_tag(o, t);
+        }
+    }
+}
+
+fn d_asn(o: &mut Vec<I>, a: &Asn<Resolved>) {
+    d_tag(o, &a.tag);
+    d_type(o, &a.r#type);
+    match &a.default {
+        None => o.push(0),
+        Some(l) => {
+            o.push(1);
+            d_lit(o, l);
+        }
+    }
+}
+
+fn d_model(o: &mut Vec<I>, m: &Model<Asn<Resolved>>) {
+    d_str(o, &m.name);
+    d_oid(o, &m.oid);
+    o.push(m.imports.len() as I);
+    for i in &m.imports {
+        o.push(i.what.len() as I);
+        for w in &i.what {
+            d_str(o, w);
+        }
+        d_str(o, &i.from);
+        d_oid(o, &i.from_oid);
+    }
+    o.push(m.definitions.len() as I);
+    for d in &m.definitions {
+        d_str(o, &d.0);
+        d_asn(o, &d.1);
+    }
+    o.push(m.value_references.len() as I);
+    for v in &m.value_references {
+        d_str(o, &v.name);
+        d_asn(o, &v.role);
+        d_lit(o, &v.value);
+    }
+}
+
+fn d_tok(o: &mut Vec<I>, t: Option<&Token>) {
+    match t {
+        None => o.push(-1),
+        Some(Token::Text(l, s)) => {
+            o.extend([0, l.line() as I, l.column() as I]);
+            d_str(o, s);
+        }
+        Some(Token::Separator(l, c)) => o.extend([1, l.line() as I, l.column() as I, 1, *c as u32 as I]),
+    }
+}
+
+// ------------------------------------------------------------------ error kinds
+
+/// `parse::ErrorKind` is not reachable through the public API (private field of `parse::Error`); the variant is
+/// recovered from the `Display` text, whose fixed part precedes the token.
+fn parse_error_kind(e: &asn1rs_model::parse::Error) -> I {
+    let s = e.to_string();
+    if s.starts_with("The ASN definition is missing the module name") {
+        return 5;
+    }
+    if s.starts_with("Unexpected end of stream or file") {
+        return 6;
+    }
+    // "At line {}, column {} <fixed text>"
+    let rest = s
+        .strip_prefix("At line ")
+        .map(|r| r.trim_start_matches(|c: char| c.is_ascii_digit()))
+        .and_then(|r| r.strip_prefix(", column "))
+        .map(|r| r.trim_start_matches(|c: char| c.is_ascii_digit()))
+        .and_then(|r| r.strip_prefix(' '));
+    let Some(rest) = rest else { return -9 };
+    const TABLE: [(&str, I); 13] = [
+        ("expected text, but instead got", 0),
+        ("expected a text like", 1),
+        ("expected separator, but instead got", 2),
+        ("expected a separator like", 3),
+        ("an unexpected token was encountered", 4),
+        ("an unexpected range value was encountered", 7),
+        ("an invalid value for an enum variant", 8),
+        ("an invalid value for an constant value", 9),
+        ("an invalid value for a tag", 10),
+        ("an extension marker is present", 11),
+        ("a number was expected but instead got", 12),
+        ("an (yet) unsupported value reference literal", 13),
+        ("an invalid literal was discovered", 14),
+    ];
+    for (p, k) in TABLE {
+        if rest.starts_with(p) {
+            return k;
+        }
+    }
+    -9
+}
+
+fn d_parse_error(o: &mut Vec<I>, e: &asn1rs_model::parse::Error) {
+    o.push(parse_error_kind(e));
+    d_tok(o, e.token());
+}
+
+fn d_resolve_error(o: &mut Vec<I>, e: &asn1rs_model::resolve::Error) {
+    use asn1rs_model::resolve::Error;
+    match e {
+        Error::FailedToResolveType(n) => {
+            o.push(0);
+            d_str(o, n);
+        }
+        Error::FailedToResolveReference(n) => {
+            o.push(1);
+            d_str(o, n);
+        }
+        Error::FailedToParseLiteral(n) => {
+            o.push(2);
+            d_str(o, n);
+        }
+    }
+}
+
+// ------------------------------------------------------------------ panics with their site
+
+fn last_panic() -> String {
+    crate::LAST_PANIC.with(|p| p.borrow().clone())
+}
+
+/// (file id, line) of "panicked at <file>:<line>:<col>:"
+fn panic_site(msg: &str) -> (I, I) {
+    let Some(rest) = msg.strip_prefix("panicked at ") else { return (0, 0) };
+    let head = rest.lines().next().unwrap_or("");
+    let mut parts = head.rsplitn(4, ':');
+    // <file>:<line>:<col>:   -> rsplit gives "", col, line, file
+    let _ = parts.next();
+    let _ = parts.next();
+    let line = parts.next().and_then(|l| l.parse::<I>().ok()).unwrap_or(0);
+    let file = parts.next().unwrap_or("");
+    const FILES: [(&str, I); 16] = [
+        ("parse/tokenizer.rs", 1),
+        ("asn/model.rs", 2),
+        ("asn/mod.rs", 3),
+        ("asn/size.rs", 4),
+        ("asn/integer.rs", 5),
+        ("asn/components.rs", 6),
+        ("asn/choice.rs", 7),
+        ("asn/enumerated.rs", 8),
+        ("asn/resolve_scope.rs", 9),
+        ("asn/tag_resolver.rs", 10),
+        ("src/rust.rs", 11),
+        ("src/protobuf.rs", 12),
+        ("generate/rust.rs", 13),
+        ("generate/protobuf.rs", 14),
+        ("generate/walker.rs", 15),
+        ("asn/inner_type_constraints.rs", 16),
+    ];
+    for (f, id) in FILES {
+        if file.ends_with(f) {
+            return (id, line);
+        }
+    }
+    if file.contains("/rustc/") || file.contains("library/") {
+        return (90, line);
+    }
+    (99, line)
+}
+
+fn panic_msg_code(msg: &str) -> I {
+    let body = msg.splitn(2, '\n').nth(1).unwrap_or(msg);
+    const TABLE: [(&str, I); 12] = [
+        ("unclosed comment blocks", 1),
+        ("index out of bounds", 2),
+        ("is not a char boundary", 3),
+        ("byte index", 3),
+        ("out of range for slice", 4),
+        ("slice index starts at", 4),
+        ("attempt to", 5),
+        ("called `Option::unwrap()`", 6),
+        ("called `Result::unwrap()`", 6),
+        ("requires a tag", 7),
+        ("missing a tag", 7),
+        ("Invalid string literal", 8),
+    ];
+    for (p, k) in TABLE {
+        if body.contains(p) {
+            return k;
+        }
+    }
+    0
+}
+
+/// run one stage; a panic becomes `[class, file, line, msg]`
+fn stage<T>(f: impl FnOnce() -> T) -> Result<T, [I; 4]> {
+    match crate::catch(f) {
+        Ok(v) => Ok(v),
+        Err(class) => {
+            let msg = last_panic();
+            let (file, line) = panic_site(&msg);
+            Err([class, file, line, panic_msg_code(&msg)])
+        }
+    }
+}
+
+// ------------------------------------------------------------------ stdout silencing (to_rust uses println!)
+
+extern "C" {
+    fn dup(fd: i32) -> i32;
+    fn dup2(from: i32, to: i32) -> i32;
+    fn close(fd: i32) -> i32;
+}
+
+/// Run `f` with file descriptor 1 pointing at /dev/null (restored afterwards, also when `f` panics).
+fn silenced<T>(f: impl FnOnce() -> T) -> T {
+    use std::io::Write;
+    use std::os::fd::AsRawFd;
+    struct Restore(i32);
+    impl Drop for Restore {
+        fn drop(&mut self) {
+            let _ = std::io::stdout().flush();
+            unsafe {
+                dup2(self.0, 1);
+                close(self.0);
+            }
+        }
+    }
+    let _ = std::io::stdout().flush();
+    let Ok(null) = std::fs::OpenOptions::new().write(true).open("/dev/null") else { return f() };
+    let saved = unsafe { dup(1) };
+    if saved < 0 {
+        return f();
+    }
+    unsafe { dup2(null.as_raw_fd(), 1) };
+    let _restore = Restore(saved);
+    f()
+}
+
+// ------------------------------------------------------------------ ops
+
+fn op_3301(a: &[I]) -> Vec<I> {
+    let Some(text) = text_of(a) else { return vec![-2] };
+    let tokens = match stage(|| Tokenizer::default().parse(&text)) {
+        Ok(t) => t,
+        Err(p) => return vec![2, 0, p[0]],
+    };
+    let model = match stage(|| Model::try_from(tokens)) {
+        Ok(Ok(m)) => m,
+        Ok(Err(e)) => {
+            let mut o = vec![1, 1];
+            d_parse_error(&mut o, &e);
+            return o;
+        }
+        Err(p) => return vec![2, 1, p[0]],
+    };
+    let resolved = match stage(|| model.try_resolve()) {
+        Ok(Ok(m)) => m,
+        Ok(Err(e)) => {
+            let mut o = vec![1, 2];
+            d_resolve_error(&mut o, &e);
+            return o;
+        }
+        Err(p) => return vec![2, 2, p[0]],
+    };
+    let mut o = vec![0];
+    d_model(&mut o, &resolved);
+    o
+}
+
+fn split_texts(a: &[I]) -> Option<Vec<String>> {
+    let k = *a.first()?;
+    if k < 0 {
+        return None;
+    }
+    let mut p = 1usize;
+    let mut out = Vec::new();
+    for _ in 0..k {
+        let len = *a.get(p)?;
+        if len < 0 {
+            return None;
+        }
+        p += 1;
+        let end = p.checked_add(len as usize)?;
+        out.push(text_of(a.get(p..end)?)?);
+        p = end;
+    }
+    if p != a.len() {
+        return None;
+    }
+    Some(out)
+}
+
+fn op_3302(a: &[I]) -> Vec<I> {
+    let Some(texts) = split_texts(a) else { return vec![-2] };
+    let mut resolver = MultiModuleResolver::default();
+    for (idx, text) in texts.iter().enumerate() {
+        let tokens = match stage(|| Tokenizer::default().parse(text)) {
+            Ok(t) => t,
+            Err(p) => return vec![2, 0, p[0]],
+        };
+        match stage(|| Model::try_from(tokens)) {
+            Ok(Ok(m)) => resolver.push(m),
+            Ok(Err(e)) => {
+                let mut o = vec![1, 1, idx as I];
+                d_parse_error(&mut o, &e);
+                return o;
+            }
+            Err(p) => return vec![2, 1, p[0]],
+        }
+    }
+    match stage(|| resolver.try_resolve_all()) {
+        Ok(Ok(models)) => {
+            let mut o = vec![0, models.len() as I];
+            for m in &models {
+                d_model(&mut o, m);
+            }
+            o
+        }
+        Ok(Err(e)) => {
+            let mut o = vec![1, 2];
+            d_resolve_error(&mut o, &e);
+            o
+        }
+        Err(p) => vec![2, 2, p[0]],
+    }
+}
+
+fn push_panic(o: &mut Vec<I>, st: I, p: [I; 4]) {
+    o.push(st);
+    o.push(2);
+    o.extend(p);
+}
+
+fn op_3303(a: &[I]) -> Vec<I> {
+    let Some((&flags, rest)) = a.split_first() else { return vec![-2] };
+    let Some(text) = text_of(rest) else { return vec![-2] };
+    let mut o = Vec::new();
+    let tokens = match stage(|| Tokenizer::default().parse(&text)) {
+        Ok(t) => t,
+        Err(p) => {
+            push_panic(&mut o, 0, p);
+            return o;
+        }
+    };
+    o.extend([0, 0]);
+    let model = match stage(|| Model::try_from(tokens)) {
+        Ok(Ok(m)) => m,
+        Ok(Err(e)) => {
+            o.extend([1, 1, parse_error_kind(&e)]);
+            match e.token() {
+                None => o.extend([0, 0, 0, 0]),
+                Some(t) => {
+                    let len = match t {
+                        Token::Text(_, s) => s.chars().count(),
+                        Token::Separator(..) => 1,
+                    };
+                    o.extend([1, t.location().line() as I, t.location().column() as I, len as I]);
+                }
+            }
+            return o;
+        }
+        Err(p) => {
+            push_panic(&mut o, 1, p);
+            return o;
+        }
+    };
+    o.extend([1, 0]);
+    let resolved = match stage(|| model.try_resolve()) {
+        Ok(Ok(m)) => m,
+        Ok(Err(e)) => {
+            let mut k = Vec::new();
+            d_resolve_error(&mut k, &e);
+            o.extend([2, 1, k[0], 0, 0, 0, 0]);
+            return o;
+        }
+        Err(p) => {
+            push_panic(&mut o, 2, p);
+            return o;
+        }
+    };
+    o.extend([2, 0]);
+    let rust = match silenced(|| stage(|| resolved.to_rust())) {
+        Ok(r) => r,
+        Err(p) => {
+            push_panic(&mut o, 3, p);
+            return o;
+        }
+    };
+    o.extend([3, 0]);
+    if flags & 1 != 0 {
+        #[cfg(feature = "protobuf")]
+        {
+            use asn1rs_model::protobuf::ToProtobufModel;
+            match silenced(|| stage(|| rust.to_protobuf())) {
+                Ok(proto) => {
+                    o.extend([4, 0]);
+                    if flags & 2 != 0 {
+                        use asn1rs_model::generate::protobuf::ProtobufDefGenerator;
+                        use asn1rs_model::generate::Generator;
+                        match silenced(|| {
+                            stage(|| {
+                                let mut g = ProtobufDefGenerator::default();
+                                g.add_model(proto);
+                                g.to_string().is_ok()
+                            })
+                        }) {
+                            Ok(true) => o.extend([6, 0]),
+                            Ok(false) => o.extend([6, 1, 0, 0, 0, 0, 0]),
+                            Err(p) => push_panic(&mut o, 6, p),
+                        }
+                    }
+                }
+                Err(p) => push_panic(&mut o, 4, p),
+            }
+        }
+        #[cfg(not(feature = "protobuf"))]
+        o.extend([4, -1]);
+    }
+    if flags & 2 != 0 {
+        use asn1rs_model::generate::rust::RustCodeGenerator;
+        use asn1rs_model::generate::Generator;
+        match silenced(|| stage(|| RustCodeGenerator::from(rust).to_string().is_ok())) {
+            Ok(true) => o.extend([5, 0]),
+            Ok(false) => o.extend([5, 1, 0, 0, 0, 0, 0]),
+            Err(p) => push_panic(&mut o, 5, p),
+        }
+    }
+    o
+}
+
+pub fn run(op: I, a: &[I]) -> Vec<I> {
+    match op {
+        3301 => op_3301(a),
+        3302 => op_3302(a),
+        3303 => op_3303(a),
+        3304 => {
+            // two 3302 inputs: n1 <n1 ints> <rest>; answer = len(answer 1) answer 1 answer 2
+            if a.is_empty() || a[0] < 0 || (a[0] as usize) >= a.len() {
+                return vec![-2];
+            }
+            let n1 = a[0] as usize;
+            let first = op_3302(&a[1..1 + n1]);
+            let second = op_3302(&a[1 + n1..]);
+            let mut o = vec![first.len() as I];
+            o.extend(first);
+            o.extend(second);
+            o
+        }
+        // 331x = 330x behind a prefix `k <k opaque ints>` (the check's own description of the case)
+        3311..=3314 if !a.is_empty() && a[0] >= 0 && (a[0] as usize) < a.len() => run(op - 10, &a[1 + a[0] as usize..]),
+        3311..=3314 => vec![-2],
+        _ => vec![-1],
+    }
 }
